@@ -143,6 +143,8 @@ pub fn eval(rng: &mut Rng, pats: &[(G, usize)], host: &G, heurs: &[Heur], o: &mu
     let hg = host.build();
     let host_s = host.to_s();
     opts_cases(rng, host, &hg, o);
+    // a PortGraph is well-formed in the sense of Theorem c02_portgraph_embedding_accepted (one link per port, existing ports)
+    o.case(sexp::l(vec![sexp::a("pg-hostwf"), host_s.clone()]).to_string(), "(wf 1)".to_string(), host.links.len() >= 2);
     // the single matcher on each constraint vector
     let mut present = vec![];
     let mut css = vec![];
@@ -173,7 +175,7 @@ pub fn eval(rng: &mut Rng, pats: &[(G, usize)], host: &G, heurs: &[Heur], o: &mu
             }).collect();
             o.case(sexp::l(vec![sexp::a("pg-cvec"), p.to_s(), sexp::a(r)]).to_string(), ok(S::L(canon)), p.live().len() >= 3);
             // per-pattern validation used by Theorem c01_portgraph_embedding: every link lies on a line, every node got a key
-            o.case(sexp::l(vec![sexp::a("pg-cover"), p.to_s(), sexp::a(r)]).to_string(), "(cover 1 keyed 1)".to_string(), p.live().len() >= 3);
+            o.case(sexp::l(vec![sexp::a("pg-cover"), p.to_s(), sexp::a(r)]).to_string(), "(cover 1 keyed 1 sound 1 distinct 1 wf 1)".to_string(), p.live().len() >= 3);
         }
         let cs_s = sexp::list(&cs, pgcons_s);
         all_css.push(cs_s.clone());
